@@ -113,7 +113,10 @@ def gen_cases(tier, seed):
             v = payload(rng, n)
             mk([{"api": "upload", "idx": mux[0], "sub": mux[1]},
                 {"api": "open_r", "idx": mux[0], "sub": mux[1], "buffering": rng.choice(BUFFERINGS),
-                 "reads": [rng.choice([1, 2, 6, 7, 8, 20])]}],
+                 "reads": [rng.choice([1, 2, 6, 7, 8, 20])]},
+                # read in small pieces until a piece comes back empty, through a small buffer (or none)
+                {"api": "open_r", "idx": mux[0], "sub": mux[1], "buffering": [2, 3, 4, 5, 6, 0, 7][n % 7],
+                 "chunked": [1, 2, 3, 5][n % 4]}],
                [entry(mux[0], mux[1], v, acc="ro")], st, tag="style")
     # (3) file-like writes: every split for lengths <= 6, every buffering, size declared or not
     for n in range(0, 7):
@@ -166,6 +169,17 @@ def gen_cases(tier, seed):
                 st = rng.choice(STYLES)
                 mk([{"api": "upload", "idx": 0x2100, "sub": sub}],
                    [entry(0x2100, sub, v, acc="ro")], st, cod, tag="odsize")
+    # (6a) download through the variable spelling node.sdo[i].open("wb") on entries the client's dictionary
+    #      declares as numbers, payload shorter / equal / longer than the declared size, size given or not
+    for dt in NUM_TYPES:
+        for n in (1, 2, 3, 4, 5, 8, 9):
+            for rec in (False, True):
+                for decl in (False, True):
+                    sub = 3 if rec else 0
+                    cod = [{"idx": 0x2100, "sub": sub, "dt": dt, "rec": rec}]
+                    mk([{"api": "open_w", "idx": 0x2100, "sub": sub, "data": payload(rng, n), "size": n if decl else -1,
+                         "buffering": [0, 1024, 3][n % 3], "chunks": [n], "mode": "wb", "via_var": True, "rec": rec}],
+                       [entry(0x2100, sub)], STYLES[n % len(STYLES)], cod, tag="varopen")
     # (6b) implicit array members (array described by its first member) and a second close()
     for dt in NUM_TYPES:
         for served in (1, 2, 4, 8, 9):
